@@ -93,9 +93,16 @@ def make_setup(case):
             if pdt == "float64":
                 pdt = "float32"
                 cfg["param_dtype"], cfg["preconditioner_dtype"] = "float32", "float32"
+    pdts = None
+    if pdt == "float32" and len(shapes) >= 2 and (rnd.random() < 0.25 or (isinstance(case["seed"][-1], int) and case["seed"][-1] % 10 == 3)):
+        # one param group mixing bfloat16 and float32 parameters; communication at least as precise as every parameter
+        pdts = [rnd.choice(["bfloat16", "float32"]) for _ in shapes]
+        k = rnd.randrange(len(shapes))
+        pdts[k], pdts[(k + 1) % len(shapes)] = "bfloat16", "float32"
+        comm = rnd.choice(["DEFAULT", "FP32"])
     # exact communication: the communication dtype represents every value of the parameter dtype
     exact = (COMM[comm] == "float32" and pdt in ("float32", "bfloat16")) or (COMM[comm] == "bfloat16" and pdt == "bfloat16")
-    return {"groups": groups, "W": W, "G": Gs, "comm": comm, "communicate_params": cp, "cfg": cfg, "shapes": shapes, "T": T, "presence_kind": pk, "presence": pres, "grad_scale": gs, "exact": exact, "grad_kind": rnd.choice(["dense", "dense", "sparse"])}
+    return {"pdts": pdts, "groups": groups, "W": W, "G": Gs, "comm": comm, "communicate_params": cp, "cfg": cfg, "shapes": shapes, "T": T, "presence_kind": pk, "presence": pres, "grad_scale": gs, "exact": exact, "grad_kind": rnd.choice(["dense", "dense", "sparse"])}
 
 
 def _grads(torch, G, S, seed, t):
@@ -104,10 +111,19 @@ def _grads(torch, G, S, seed, t):
     out = []
     for j, s in enumerate(S["shapes"]):
         if S["presence"][t][j]:
+            dt = getattr(torch, S["pdts"][j]) if S.get("pdts") else dt
             out.append(G.grad_for(torch, tgen(*seed, "g", t, j), s, dt, S["grad_kind"], S["grad_scale"] * (1 + j)))
         else:
             out.append(None)
     return out
+
+
+def init_params(torch, G, S, seed):
+    """initial parameter values, identical on every rank and in every twin (per-parameter dtypes for mixed-dtype groups)"""
+    init = G.make_params(torch, S["shapes"], getattr(torch, S["cfg"]["param_dtype"]), tgen(*seed, "init"), scale=S["grad_scale"])
+    if S.get("pdts"):
+        init = [torch.nn.Parameter(p.detach().to(getattr(torch, d))) for p, d in zip(init, S["pdts"])]
+    return init
 
 
 def _state_hashes(opt, p):
@@ -124,7 +140,7 @@ def rank_program(ds, torch, S, seed, rank, world, with_twin):
 
     cfg = S["cfg"]
     dt = getattr(torch, cfg["param_dtype"])
-    init = G.make_params(torch, S["shapes"], dt, tgen(*seed, "init"), scale=S["grad_scale"])
+    init = init_params(torch, G, S, seed)
     params = [torch.nn.Parameter(p.detach().clone()) for p in init]
     opt = G.build_optimizer(ds, torch, cfg, params, S.get("groups"), distributed_config=ddp_config(ds, S["comm"], S["G"], S["communicate_params"]))
     twin_p = twin = None
@@ -270,7 +286,7 @@ def run_case(case):
 
         return c06_gloo.run(case, S)
     counters = {"evals": 0, "absent_params_checked": 0, "replica_comparisons": 0, "serial_bitwise_steps": 0, "rounding_model_steps": 0, "owner_updates_compared": 0, "collectives_logged": 0, "group_creations_logged": 0, "steps_with_starved_rank": 0, "set_interleavings": []}
-    desc = {"W": S["W"], "G": S["G"], "comm": S["comm"], "communicate_params": S["communicate_params"], "cfg": S["cfg"], "shapes": S["shapes"], "presence_kind": S["presence_kind"], "presence": S["presence"], "T": S["T"]}
+    desc = {"pdts": S.get("pdts"), "W": S["W"], "G": S["G"], "comm": S["comm"], "communicate_params": S["communicate_params"], "cfg": S["cfg"], "shapes": S["shapes"], "presence_kind": S["presence_kind"], "presence": S["presence"], "T": S["T"]}
     # block geometry (param index, shape, strides, offset) keyed by block id, from a public-constructor serial Distributor
     from distributed_shampoo.utils.shampoo_distributor import Distributor
 
